@@ -23,6 +23,8 @@ func init() {
 func runC13(c *eng.Ctx) {
 	c.Rule("R13.9", "K2")
 	ruleRegisteredMemberIsThisCall(c)
+	c.Rule("R13.10", "K2")
+	ruleGroupMembersOnlyWhileLeading(c)
 	p := c.P
 	cons := p.Field("server", "partition", "consumers")
 	if cons == nil {
